@@ -12,7 +12,8 @@ EXTENDS Naturals, Integers, FiniteSets, Sequences, TLC
 
 CONSTANTS Threads, Scans, CountInsideIf,
           SaveMask,      \* TRUE = as built: sigsetjmp(jb, 1) saves the signal mask and siglongjmp out of the handler restores it
-          MaxFaults      \* memory faults (SIGBUS) that may hit a thread while it is inside the protected body
+          MaxFaults,     \* memory faults (SIGBUS) that may hit a thread while it is inside the protected body
+          OneShot        \* FALSE = as built; TRUE: the handler is installed with SA_RESETHAND (the first caught fault uninstalls it)
 
 VARIABLES pc,        \* thread -> "idle" | "locked1" | "body" | "locked2" | "done"
           left,      \* scans left per thread
@@ -52,7 +53,8 @@ Fault(t) == /\ pc[t] = "body" /\ ~killed /\ faults[t] < MaxFaults
             /\ faults' = [faults EXCEPT ![t] = @ + 1]
             /\ IF ~installed \/ blocked[t] THEN killed' = TRUE /\ UNCHANGED blocked
                ELSE killed' = killed /\ blocked' = [blocked EXCEPT ![t] = ~SaveMask]
-            /\ UNCHANGED <<pc, left, mutex, usecount, installed, log>>
+            /\ installed' = IF OneShot /\ installed /\ ~blocked[t] THEN FALSE ELSE installed
+            /\ UNCHANGED <<pc, left, mutex, usecount, log>>
 
 SInit == /\ pc = [t \in Threads |-> "idle"] /\ left = [t \in Threads |-> Scans] /\ mutex = 0
          /\ usecount = 0 /\ installed = FALSE /\ log = << >>
